@@ -290,8 +290,9 @@ void process_group(const XmlElement& xf, const Components& components, const int
 		outf << " component=\'" << compon << '\'';
 	outf << '>' << endl;
 
+	// whether a member of a group element is required does not depend on the group itself being optional
 	for(XmlElement::XmlSet::const_iterator itr(xf.begin()); itr != xf.end(); ++itr)
-		process_elements(itr, components, depth + 1, outf, string(), required);
+		process_elements(itr, components, depth + 1, outf, string(), true);
 	outf << string(depth * 2, ' ') << "</group>" << endl;
 }
 
